@@ -69,6 +69,9 @@ def directed_families():
     F.append(("pow:raw-base", ["bin", "**", ["raw", 2.0, "float"], ab]))
     F.append(("par", ["bin", "+", ["bin", "*", ["par", "p"], _a], ["fn", "sin", ["bin", "*", ["par", "p"], _b]]]))
     F.append(("pel", ["bin", "+", ["bin", "*", ["pel", "r", 1], _a], ["pel", "r", 2]]))
+    F.append(("par:exponent", ["bin", "+", ["bin", "**", _pos(_a), ["par", "p"]], ["bin", "*", _b, _x2]]))
+    F.append(("par:weight-times-nonlinear", ["bin", "+", ["bin", "*", ["par", "p"], ["fn", "sin", ["bin", "*", _a, _b]]], ["bin", "**", _b, ["raw", 2, "int"]]]))
+    F.append(("par:in-denominator", ["bin", "/", _a, ["bin", "+", ["bin", "**", ["par", "p"], ["raw", 2, "int"]], ["raw", 1.0, "float"]]]))
     F.append(("el", ["bin", "*", ["el", _x, 2], ["el", ["slice", _x, 1, 4, None], 0]]))
     F.append(("mel", ["bin", "*", ["mel", _A, 1, 2], ["mel", ["T", _A], 2, 0]]))
     F.append(("mel:sym", ["bin", "-", ["mel", _Gm, 2, 0], ["bin", "*", ["raw", 2, "int"], ["mel", _Gm, 0, 2]]]))
@@ -170,8 +173,25 @@ def make_V(rng, D, used, vrel):
     return v
 
 
+def vary_params(rng, decls):
+    """Copy of decls with initial parameter values drawn per case, including the structural values 0 and 1
+    (a derivative whose *shape* was decided from the value at differentiation time must still follow set())."""
+    import copy
+
+    if not any(d["k"] in ("par", "vpar") for d in decls):
+        return decls
+    out = copy.deepcopy(decls)
+    for d in out:
+        if d["k"] == "par":
+            d["val"] = rng.choice([0.0, 1.0, 1.5, 2.0, -1.0, 0.5, 3.0])
+        elif d["k"] == "vpar":
+            d["vals"] = [rng.choice([0.0, 1.0, -1.0, 0.5, 2.0]) for _ in d["vals"]]
+    return out
+
+
 def finish_case(rng, decls, node, vrel, family, n_points=3, margin=1e-2):
     """Attach V and regular points; None when no regular point was found."""
+    decls = vary_params(rng, decls)
     D = R.Decls(decls)
     used = R.ref_vars(D, node)
     if not used:
